@@ -242,26 +242,24 @@ type c19CFG struct {
 	Start []int
 }
 
-var (
-	c19pcMu  sync.Mutex
-	c19pcTab = map[uintptr]int{}
-)
+// c19pcTab numbers the code addresses met in the dumps of one program: 1.. by first appearance.
+type c19pcTab map[uintptr]int
 
-func c19pc(p uintptr) int {
+type c19StepT = interp.VerifC19Step
+
+func (t c19pcTab) id(p uintptr) int {
 	if p == 0 {
 		return 0
 	}
-	c19pcMu.Lock()
-	defer c19pcMu.Unlock()
-	if v, ok := c19pcTab[p]; ok {
+	if v, ok := t[p]; ok {
 		return v
 	}
-	v := len(c19pcTab) + 1
-	c19pcTab[p] = v
+	v := len(t) + 1
+	t[p] = v
 	return v
 }
 
-func c19MakeCFG(dump []interp.VerifC19Node) *c19CFG {
+func c19MakeCFG(dump []interp.VerifC19Node, tab c19pcTab) *c19CFG {
 	g := &c19CFG{N: dump, Pos: map[int64]int{}}
 	for p, n := range dump {
 		g.Pos[n.Index] = p
@@ -279,7 +277,7 @@ func c19MakeCFG(dump []interp.VerifC19Node) *c19CFG {
 	g.Tn, g.Fn, g.Anc, g.Size, g.PC, g.Start = make([]int, n), make([]int, n), make([]int, n), make([]int, n), make([]int, n), make([]int, n)
 	for p, nd := range dump {
 		g.Tn[p], g.Fn[p], g.Anc[p], g.Start[p] = at(nd.Tnext), at(nd.Fnext), at(nd.Anc), at(nd.Start)
-		g.PC[p] = c19pc(nd.ExecPC)
+		g.PC[p] = tab.id(nd.ExecPC)
 		g.Size[p] = 1
 	}
 	for p := n - 1; p > 0; p-- {
